@@ -283,7 +283,8 @@ func NewClawbackVestingAccount
     requires sums: Sum(lockupPeriods, len(lockupPeriods)) == originalVesting && Sum(vestingPeriods, len(vestingPeriods)) == originalVesting
     ensures fresh_account: result != nil && fresh(result)
     ensures valid: ValidCVA(*result)
-    ensures fields: result.OriginalVesting == originalVesting && result.StartTime == startTime
+    ensures fields: result.OriginalVesting == originalVesting && result.StartTime == startTime && result.BaseAccount == baseAcc
+            && ciszero(result.DelegatedFree) && ciszero(result.DelegatedVesting) && result.FunderAddress == addr_string(funder)
     ensures lockup: Ended(s, result.LockupPeriods, len(result.LockupPeriods), u) == Ended(s, lockupPeriods, len(lockupPeriods), u)
     ensures vesting: Ended(s, result.VestingPeriods, len(result.VestingPeriods), u) == Ended(s, vestingPeriods, len(vestingPeriods), u)
     ensures end: result.EndTime == imax(T(s, lockupPeriods, len(lockupPeriods)), T(s, vestingPeriods, len(vestingPeriods)))
